@@ -64,10 +64,13 @@ class BuiltinConverterProvider(ConverterProvider):
             ),
             lambda x: "Cannot create top-level coercer",
         )
-        closure_name = self._get_closure_name(request)
+        function_name = self._get_closure_name(request)
+        # function_name can be any string, it is used only as data (value of __name__ attribute)
+        closure_name = self._name_sanitizer.sanitize(function_name) or "_"
         dumper_code, dumper_namespace = self._produce_code(
             signature=request.signature,
             closure_name=closure_name,
+            function_name=function_name,
             stub_function=request.stub_function,
             coercer=coercer,
         )
@@ -81,7 +84,7 @@ class BuiltinConverterProvider(ConverterProvider):
         )
 
     def _register_mangled(self, namespace: CascadeNamespace, base: str, obj: object) -> str:
-        base = self._name_sanitizer.sanitize(base)
+        base = self._name_sanitizer.sanitize(base) or "_"
         if namespace.try_add_constant(base, obj):
             return base
 
@@ -102,6 +105,7 @@ class BuiltinConverterProvider(ConverterProvider):
         signature: Signature,
         stub_function: Optional[Callable],
         closure_name: str,
+        function_name: str,
         coercer: Coercer,
     ) -> tuple[str, Mapping[str, object]]:
         builder = CodeBuilder()
@@ -141,7 +145,7 @@ class BuiltinConverterProvider(ConverterProvider):
         if stub_function is not None:
             builder += f"{update_wrapper_var}({closure_name}, {stub_function_var})"
         builder += f"{closure_name}.__signature__ = {signature_var}"
-        builder += f"{closure_name}.__name__ = {closure_name!r}"
+        builder += f"{closure_name}.__name__ = {function_name!r}"
         return builder.string(), namespace.all_constants
 
     def _get_ctx_passing(self, ctx_parameters: Sequence[Parameter]) -> str:
